@@ -828,7 +828,58 @@ def patchdata_cases(ctx):
                      "does not raise where the byte count says it should)" % m["variant"], m, case=("pd-read", m["variant"], m["nrec"]))
 
 
+PI_HEADER = "From Verif Require Import PatchData PatchIds.\nFrom Coq Require Import List NArith ZArith.\nImport ListNotations.\nOpen Scope N_scope.\n"
+
+
+def patchids_cases(ctx):
+    """patch_ids.bin byte for byte (Model/PatchIds.v): a real CatalogWriter given patches in any order of ids, the bytes of the marker
+    it writes at finalize against the model's, and read_patch_ids on the file, on cuts of it and on arbitrary byte strings."""
+    from pathlib import Path
+    from yaw.catalog.catalog import CatalogWriter, read_patch_ids
+    from yaw.datachunk import DataChunkInfo
+    rng = ctx.rng
+    terms, metas = [], []
+    dtype = np.dtype([("ra", "f8"), ("dec", "f8")])
+    for k in range(ctx.n(30, 300)):
+        n = rng.choice([1, 2, 3, 5, 12, 40])
+        pool = rng.choice([range(0, 64), range(0, 1000), range(250, 260), range(32000, 32768)])
+        ids = rng.sample(list(pool), min(n, len(pool)))
+        cache = impl.fresh_dir(ctx, "pi_%d" % k)
+        with CatalogWriter(cache, chunk_info=DataChunkInfo(), overwrite=True, buffersize=4) as wr:
+            for rnd in range(rng.choice([1, 2])):
+                order = list(ids)
+                rng.shuffle(order)
+                wr.process_patches({i: np.zeros(rng.choice([1, 3]), dtype=dtype) for i in order})
+        data = open(os.path.join(cache, "patch_ids.bin"), "rb").read()
+        probes = [("whole", data), ("cut", data[:rng.randrange(0, len(data) + 1)]), ("cut", data[:1]), ("cut", b""),
+                  ("arbitrary", bytes(rng.getrandbits(8) for _ in range(rng.choice([2, 3, 4, 7]))))]
+        for variant, probe in probes:
+            with open(os.path.join(cache, "patch_ids.bin"), "wb") as f:
+                f.write(probe)
+            try:
+                back = [int(x) for x in read_patch_ids(Path(cache))]
+                rb, kind = "(Some [%s])" % "; ".join("(%d)%%Z" % x for x in back), "reads"
+            except Exception as e:  # noqa: BLE001
+                if type(e).__name__ != "InconsistentPatchesError":
+                    raise
+                rb, kind = "None", "refused"
+            terms.append("c11_patchids_case [%s]%%nat %s %s %s" % ("; ".join(str(i) for i in ids), pd_nl(data), pd_nl(probe), rb))
+            metas.append(dict(ids=ids, variant=variant, probe_bytes=len(probe)))
+            ctx.count(key=("pi", k, variant, len(probe)), nontrivial=len(ids) > 1, kind="patchids/%s/%s" % (variant, kind))
+        shutil.rmtree(cache, ignore_errors=True)
+    codes = ctx.shards("Cases_C11_patchids", PI_HEADER, terms, shard=100)
+    for m, c in zip(metas, codes):
+        if not c:
+            continue
+        if c & 1:
+            ctx.fail("c11-patchids-bytes", "patch_ids.bin is not the ascending int16 list of the ids written", m, case=("pi", tuple(m["ids"])))
+        if c & 2:
+            ctx.fail("c11-patchids-readback:%s" % m["variant"], "read_patch_ids on %s differs from the model reader" % m["variant"], m,
+                     case=("pi-read", m["variant"], tuple(m["ids"])))
+
+
 def run(ctx):
+    patchids_cases(ctx)
     patchdata_cases(ctx)
     impl.set_threads(1)
     out = dict(sparse=[], members=[], txt=[], cfg=[], meta=[])
